@@ -62,7 +62,7 @@ def run(pid, tier):
     out.coverage = {
         'explanation': 'Contracts of the real pub fns of ascent::aggregators as harness pre/postconditions. '
                        'COMPLETE obligation (loop-free Kani, all p in [0,100] as f64, all lengths in range): the extracted index statement of percentile is in bounds '
-                       'and hits the first/middle/last rank at p=0/50/100. BOUNDED: Kani over all u8/i8/i16 values at input length <= 3 (quick) / 5 (thorough); '
+                       'and hits the first/middle/last rank at p=0/50/100. BOUNDED: Kani over all u8/i8/i16 values at input length <= 8 (quick) / 16 (thorough), mean <= 2 / 3 (f64 arithmetic is expensive in CBMC); '
                        'exhaustive native execution at length <= 6 over small value sets; percentile end-to-end (sort + swap_remove) only natively '
                        '(CBMC does not terminate on sort()).',
         'obligations': len(k['harnesses']),
@@ -81,13 +81,13 @@ def run(pid, tier):
         'exhaustive': True,
         'functions_under_contract': ['ascent::aggregators::' + f for f in ('min', 'max', 'sum', 'count', 'mean', 'percentile', 'not')],
         'samples': [
-            {'kani_harness': 'count_le3', 'asserts': ['count_exact_hint_is_cardinality', 'count_inexact_hint_is_cardinality', 'count_unbounded_hint_is_cardinality', 'count_loose_hint_is_cardinality']},
+            {'kani_harness': 'count_le8', 'asserts': ['count_exact_hint_is_cardinality', 'count_inexact_hint_is_cardinality', 'count_unbounded_hint_is_cardinality', 'count_loose_hint_is_cardinality']},
             {'native': 'percentile_le5 bytes [3, 2,0,1,_,_, 3,32] = input [2,0,1], p = 100.0 -> Some(2)'},
             {'extracted_statement': unit['stmt']},
         ],
     }
     out.assumptions = TRUSTED + [
-        'BOUNDED in input length (stated per harness); full value domain only under Kani at length <= 3/5',
+        'BOUNDED in input length (stated per harness); full value domain only under Kani at length <= 8/16 (mean: 2/3)',
         'percentile end-to-end is checked natively only (lengths <= 5/6 over {0..3}, p on the 1/8 grid of [0,100]); the index obligation is complete for len <= 2^40 (quick) / 2^46 (thorough; beyond 2^47 the product len*50 is no longer exact in f64, so the mid-rank oracle would be wrong, and no such Vec exists)',
         'sum: overflow excluded by construction of the inputs (wrapping/panicking overflow of the user type is outside the property)',
         'mean: exactness argument needs |partial sums| < 2^53',
